@@ -356,14 +356,16 @@ func (r *transport) handleCacheHit(
 	req = withConditionalHeaders(req, stored.Data.Header)
 	resp, start, end, err := r.roundTripTimed(req)
 	ctx := internal.RevalidationContext{
-		URLKey:    urlKey,
-		Start:     start,
-		End:       end,
-		CCReq:     ccReq,
-		Stored:    stored,
-		Refs:      refs,
-		RefIndex:  refIndex,
-		Freshness: freshness,
+		URLKey:   urlKey,
+		Start:    start,
+		End:      end,
+		CCReq:    ccReq,
+		Stored:   stored,
+		Refs:     refs,
+		RefIndex: refIndex,
+		// Whether the stored response may be served stale on error (RFC 5861 §4) is
+		// judged on its own age and lifetime, not on the request's max-age/min-fresh.
+		Freshness: r.fc.CalculateFreshness(stored, nil, ccResp),
 	}
 	return r.vrh.HandleValidationResponse(ctx, req, resp, err)
 }
